@@ -63,23 +63,27 @@ theorem exclusive_single (tr : List Lbl) (s : Nat) (p : Part) (h : (reach tr).c.
 /-- **Nobody gets in while it is exclusive** (`GetJournalTags`): the call changes nothing and has to retry. -/
 theorem no_acquire_while_exclusive_getTags (st : St) (a s : Nat) (lock : Bool) (p : Part)
     (h : st.c.parts s = some p) (hx : p.exclusive = true) : step st (.getTags a s lock) = some st := by
-  simp [step, h, hx]
+  by_cases hd : st.done = true <;> simp [step, h, hx, hd]
 
 /-- … `getOrCreateJournal` / `GetJournal` -/
 theorem no_acquire_while_exclusive_getOrCreate (st : St) (a tags s : Nat) (create : Bool) (p : Part)
     (hf : findTags st.c.parts tags st.c.next = some s)
     (h : st.c.parts s = some p) (hx : p.exclusive = true) : step st (.getOrCreate a tags create) = some st := by
-  simp [step, hf, h, hx]
+  by_cases hd : st.done = true <;> simp [step, hf, h, hx, hd]
 
-/-- … the per-item section of the waiting `Visit`: it neither acquires nor calls the visitor -/
+/-- … the per-item section of the waiting `Visit`: it neither acquires nor calls the visitor (and before a shutdown
+it changes nothing at all: the visit retries) -/
 theorem no_acquire_while_exclusive_visitTry (st st' : St) (a s : Nat) (p : Part)
-    (h : st.c.parts s = some p) (hx : p.exclusive = true) (hs : step st (.visitTry a s) = some st') : st' = st := by
+    (h : st.c.parts s = some p) (hx : p.exclusive = true) (hs : step st (.visitTry a s) = some st') :
+    st'.c = st.c ∧ (st.done = false → st' = st) := by
   simp only [step] at hs
   split at hs
   · simp at hs
   · split at hs
     · simp at hs
-    · simp [h, hx] at hs; exact hs.symm
+    · by_cases hd : st.done = true
+      · simp [hd] at hs; subst hs; simp [hd]
+      · simp [h, hx, hd] at hs; subst hs; simp
 
 /-- … the snapshot of both `Visit` flavours never contains (and the skipping flavour never acquires) an
 exclusively locked partition: the number of acquisitions of an exclusively locked source is unchanged -/
@@ -93,7 +97,9 @@ theorem no_acquire_while_exclusive_visitBegin (tr : List Lbl) (a : Nat) (sel : L
   simp only [step] at hs
   split at hs
   · simp at hs
-  · simp at hs; subst hs
+  · split at hs
+    · simp at hs; subst hs; exact ⟨rfl, h⟩
+    simp at hs; subst hs
     -- the snapshot only touches `readers` of not exclusively locked descriptors
     have key : ∀ (l : List Nat) (parts : Nat → Option Part) (holds : List Tok), parts s = some p →
         (snap a sel skipping l parts holds).1 s = some p := by
@@ -162,6 +168,8 @@ theorem no_half_deleted_getTags (tr : List Lbl) (a s : Nat) (st' : St)
   simp only [step] at hs
   split at hs
   · simp at hs; subst hs; exact absurd rfl hne
+  split at hs
+  · simp at hs; subst hs; exact absurd rfl hne
   · rename_i p hp
     split at hs
     · simp at hs; subst hs; exact absurd rfl hne
@@ -187,6 +195,9 @@ theorem no_half_deleted_visitTry (tr : List Lbl) (a s : Nat) (st' : St) (v' : Vi
         cases hcv : v.cur with
         | none => rfl
         | some x => simp [hcv] at hcond
+      split at hs
+      · simp at hs; subst hs
+        simp only [upd_same] at hv; cases hv
       split at hs
       · simp at hs; subst hs
         simp only [upd_same, Option.some.injEq] at hv; subst hv
@@ -252,9 +263,24 @@ theorem quiescent_zero (tr : List Lbl) (hq : (reach tr).c.holds = []) (s : Nat) 
 
 /-- **Progress**: a partition that is not exclusively locked is acquired at once (waiting happens only behind an
 exclusive lock, whose holder — `deleteJournal` — runs straight through, `exclusive_section_straight_line`). -/
-theorem progress_getTags (st : St) (a s : Nat) (p : Part) (h : st.c.parts s = some p) (hx : p.exclusive = false) :
+theorem progress_getTags (st : St) (a s : Nat) (p : Part) (h : st.c.parts s = some p) (hx : p.exclusive = false)
+    (hd : st.done = false) :
     ∃ st', step st (.getTags a s true) = some st' ∧ st'.c.holds = ⟨a, s, false⟩ :: st.c.holds := by
-  exact ⟨_, by simp [step, h, hx]; rfl, rfl⟩
+  exact ⟨_, by simp [step, h, hx, hd]; rfl, rfl⟩
+
+/-- **Shutdown**: after `Shutdown()` nothing is acquired any more and no visit starts; a waiting `Visit` that notices
+the flag in its per-item section ends without its final locked section — what it still owes stays counted (the
+process is about to exit; this is the one way `readers` can stay above 0 without a holder that will come back). -/
+theorem shutdown_stops_acquisitions (st : St) (hd : st.done = true) (a x : Nat) (b c : Bool) (sel : List Nat) :
+    step st (.getTags a x b) = some st ∧ step st (.getOrCreate a x b) = some st ∧
+    (st.vis a = none → step st (.visitBegin a sel b c) = some st) := by
+  refine ⟨by simp [step, hd], by simp [step, hd], ?_⟩
+  intro hv; simp [step, hd, hv]
+
+/-- the flag is never reset: a trace whose final state is not shut down never was -/
+theorem done_monotone (st : St) (l : Lbl) (st' : St) (hs : step st l = some st') (hd : st.done = true) :
+    st'.done = true := by
+  cases l <;> simp only [step] at hs <;> (repeat' split at hs) <;> simp at hs <;> (try subst hs) <;> simp_all
 
 /-! ### caller programs; finding F15 and its repair
 
